@@ -237,9 +237,10 @@ def extract_iter(
                 to_unwrap.popleft()
         else:
             # Only inserting new items into the stack trace; since
-            # next_inner is in both `items` and `to_unwrap`, remove it
-            # from the latter
-            to_unwrap.popleft()
+            # next_inner is in both `items` and `to_unwrap`, keep the
+            # latter (which remembers its own depth) and drop it from
+            # the former
+            items = items[:-1]
         for item in reversed(items):
             to_unwrap.appendleft((better_origin(item, None), item, depth))
 
